@@ -25,6 +25,7 @@ ENCODINGS = ["bom", "crlf", "bom+crlf", "cr", "nul_padding", "leading_newlines",
              "double_bom", "bom_mid",
              # a stray leading character whose case mapping changes the length of the string (U+0130), that cannot be
              # encoded (lone surrogate), NUL, a non-ASCII digit
+             "lead_many_newlines", "lead_many_spaces",
              "lead:\u0130", "lead:\u0130\u0130\u0130", "lead:\u00df", "lead:\udc80", "lead:\x00", "lead:\u0663", "lead: "]
 FAULT_KINDS = ["transfer_encoding", "torn_prefix", "torn_byte_prefix", "torn_suffix", "lost_write", "stale_tail", "misdirected_concat",
                "duplicated_block", "dropped_block", "corrupted_char", "inserted_char", "deleted_char"]
@@ -69,6 +70,10 @@ def apply_fault(f, docs_by_name):
             t = t.lower()
         if enc.startswith("lead:"):
             t = enc[5:] + t
+        if enc == "lead_many_newlines":
+            t = "\n" * 1500 + t      # a sparse / padded block before the document (also exercises depth-per-line code)
+        if enc == "lead_many_spaces":
+            t = " " * 70000 + t
         return t if k is None else t[:k]
     if kind == "lost_write":
         return "" if f[2] is None else docs_by_name[f[2]]
@@ -111,6 +116,8 @@ def expand(fspec, docs_by_name):
         for enc in ENCODINGS:
             out.append(["transfer_encoding", name, enc, None])
             out += [["transfer_encoding", name, enc, k] for k in range(0, min(len(a), 48))]
+            if enc == "lead_many_newlines":
+                out += [["transfer_encoding", name, enc, k] for k in (999, 1000, 1001, 1499, 1500, 1501, 1502, 1510)]
         return out
     if kind == "all_line_drops":
         n = len(a.split("\n"))
@@ -511,7 +518,14 @@ def _run(seed, tier, a, t0, evidence_path):
             for l in rec["langs"]:
                 for c in l["captions"][:2]:
                     c["layout"] = big
-        pipelines.append({"recipe": rec, "writer": w, "ctor": ctor})
+        call = {}
+        if w in ("DFXPWriter", "SinglePositioningDFXPWriter", "LegacyDFXPWriter") and rng.random() < 0.3:
+            # force= a language the set has (by index, in various spellings) or one it does not have
+            call = rng.choice([{"force_idx": rng.randrange(3)}, {"force": "xx"}, {"force": rec["langs"][0]["lang"].upper()},
+                               {"force": rec["langs"][-1]["lang"][:2]}])
+        elif w == "WebVTTWriter" and rng.random() < 0.3:
+            call = {"lang_idx": rng.randrange(3)}
+        pipelines.append({"recipe": rec, "writer": w, "ctor": ctor, "call": call})
     # the recorded example of every open known finding is re-run each time, so that the KNOWN-FINDING line
     # does not depend on the seed (and disappears by itself once the defect is repaired)
     for f in load_known():
